@@ -90,7 +90,9 @@ def c02(r):
     f = p.future()
     ok_done = f.done() and not f.cancelled()
     if label == 'finished':
-        if not (ok_done and f.exception() is None and (f.result() is p.outputs or f.result() == p.outputs)):
+        # the very mapping the accessor gives (a class that derives its `outputs` builds a new, equal one on every access)
+        same = f.result() is p.outputs or (p.__dict__.get('_verif_derived') and f.result() == p.outputs) if ok_done and f.exception() is None else False
+        if not same:
             out.append(F('c02-future-finished', 'FINISHED: the future resolves to the outputs', repr(f)))
         last = p._trace[-1][0] if p._trace else None
         oc = r.prog['fns'].get(last, (0, None))[1] if last is not None else None
